@@ -391,6 +391,10 @@ func RandomTables(r *runner.Rand, o TableOptions) *File {
 			t.SplitCtts = randomCuts(r, n)
 			t.ZeroCountCtts = true
 		}
+		if o.ZeroCountStts && r.Chance(1, 10) {
+			t.EntriesEqualSamples = t.HasCtts
+			t.EntriesEqualSamplesStts = r.Bool()
+		}
 		if r.Chance(1, 4) {
 			t.SplitStsc = randomCuts(r, len(t.ChunkLens))
 		}
@@ -775,6 +779,10 @@ func RandomMovie(r *runner.Rand, o MovieOptions) *File {
 			if t.HasCtts {
 				t.SplitCtts = randomCuts(r, n)
 			}
+		}
+		if o.ZeroSizes && t.HasCtts && r.Chance(1, 6) {
+			t.EntriesEqualSamples = true
+			label += " ctts-entries=samples"
 		}
 		t.Co64 = r.Chance(1, 3)
 		t.TkhdVersion = byte(r.Intn(2))
